@@ -1,11 +1,36 @@
-(* C20  The regex engine reports exactly the reachable occurrences.  (theorems are added by Lemmas/RegexLemmas) *)
-From Coq Require Import List.
-From Tealer Require Import Syntax Cfg Regex.
+(* C20  The regex engine reports exactly the reachable occurrences.  Property theorems only.
+   Reach / ReachPlus / CPath: instruction-level reachability, defined independently of the DFS (RegexLemmas). *)
+From Coq Require Import List String.
+From Tealer Require Import Syntax Cfg Analysis Regex RegexLemmas.
 Import ListNotations.
 
-(* the straight-line matcher: an empty pattern matches everywhere, a non-empty one needs a current instruction *)
-Theorem C20_match_nil : forall p cur, is_match p cur [] = true.
-Proof. reflexivity. Qed.
-Theorem C20_match_none : forall p r rest, is_match p None (r :: rest) = false.
-Proof. reflexivity. Qed.
-Print Assumptions C20_match_none.
+(* matches = exactly the reachable straight-line occurrences, no duplicates; covered instructions all lie on a
+   path from the start to a match; every reachable match is reached by a path through covered instructions *)
+Theorem C20_matches_and_covered : forall fuel t label regex start ms cov,
+  find_regex_label t label = Some start ->
+  match_regex fuel t label regex = Done (ms, cov) ->
+  (forall m, In m ms <-> exists k, Reach (t_prog t) start k /\ is_match (t_prog t) (Some k) regex = true /\
+                                   m = collect_match (t_prog t) k (Nat.pred (length regex))) /\
+  NoDup ms /\
+  (forall c, In c cov -> Reach (t_prog t) start c /\ exists k, ReachPlus (t_prog t) c k /\ is_match (t_prog t) (Some k) regex = true) /\
+  (forall k, Reach (t_prog t) start k -> is_match (t_prog t) (Some k) regex = true -> CPath (t_prog t) cov start k).
+Proof. exact match_regex_spec. Qed.
+
+(* each reported match lists the pattern's instructions in order along unique-successor links, same class and text *)
+Theorem C20_match_listing : forall p regex k, regex <> [] -> is_match p (Some k) regex = true ->
+  let l := collect_match p k (Nat.pred (length regex)) in
+  length l = length regex /\ hd_error l = Some k /\
+  (forall i a b, nth_error l i = Some a -> nth_error l (S i) = Some b -> single_next p a = Some b) /\
+  (forall i a r, nth_error l i = Some a -> nth_error regex i = Some r -> exists o, op_at p a = Some o /\ is_equal o r = true).
+Proof. exact match_listing. Qed.
+
+(* the clause "covered includes every instruction of every such path" is REFUTED on the unchanged tree
+   (known finding D14: a branch into an already visited join is not marked) *)
+Theorem C20_covered_complete_refuted :
+  ~ (forall p regex fuel start r st, find_instructions fuel p regex start (mkR [] [] []) = Done (r, st) ->
+       forall c k, Reach p start c -> ReachPlus p c k -> is_match p (Some k) regex = true -> In c (r_covered st)).
+Proof. exact covered_incomplete_refuted. Qed.
+
+Print Assumptions C20_matches_and_covered.
+Print Assumptions C20_match_listing.
+Print Assumptions C20_covered_complete_refuted.
